@@ -1,5 +1,6 @@
 """C16 — parameter derivatives and the optimizer's parameter map are consistent."""
 import json
+import os
 
 import numpy as np
 
@@ -7,7 +8,8 @@ from common import Check, zlit, coq_list
 import wfzoo
 
 THEOREMS = ["C16_flatten_restore_identity", "C16_unselected_entries_untouched", "C16_unselected_keys_untouched", "C16_structure_preserved",
-            "C16_vector_length", "C16_empty_selection", "C16_gradient_duality_one_key_partial", "C16_gradient_duality_all_keys", "C16_hypotheses_satisfiable"]
+            "C16_vector_length", "C16_empty_selection", "C16_gradient_duality_one_key_partial", "C16_gradient_duality_all_keys", "C16_hypotheses_satisfiable",
+            "C16_pair_slice_of_electron_i_is_its_row", "C16_pair_slices_tile_the_packed_list", "C16_packed_list_is_the_ordered_pairs"]
 S_LT = "pyqmc/observables/accumulators.py:LinearTransform"
 S_PG = "pgradient"
 S_CUSP = "pyqmc/wftools.py:generate_jastrow"
@@ -318,6 +320,86 @@ def check_real_wfs(ck):
             ck.violation("cusp_parameter_altered", S_CUSP, {"ion_cusp": str(cusp)}, expected="acoeff[:,0,:] unchanged", got=np.asarray(new["acoeff"])[:, 0, :].tolist())
 
 
+def check_pair_packing(ck):
+    """Tie of C16/Pairs.v to the source: the same-spin loops of ThreeBodyJastrow.pgradient are read from the AST and executed symbolically for
+    every (nup, ndown) in 0..5: per iteration the electron index used on `a`, the j-range sliced from `a` and the range sliced from the pair
+    values.  In local indices of the spin channel these must be the model's (i, offset n i, n-i-1, i+1, n) (vm_compute, packing_ok); and the
+    order in which dist_matrix lists the pairs must be the model's `pairs n`.  AUXILIARY tie: when the source no longer has the shape read
+    here it is reported as unavailable in the evidence (the finite-difference oracle remains), not as an alarm."""
+    import ast
+    from common import REPO
+    try:
+        src = open(os.path.join(REPO, "pyqmc/wf/three_body_jastrow.py")).read()
+        tree = ast.parse(src)
+        fn = [f for c in tree.body if isinstance(c, ast.ClassDef) and c.name == "ThreeBodyJastrow" for f in c.body if isinstance(f, ast.FunctionDef) and f.name == "pgradient"][0]
+        loops = [st for st in fn.body if isinstance(st, ast.For) and any(isinstance(b, ast.AugAssign) and isinstance(b.target, ast.Name) for b in st.body)]
+        if len(loops) != 2:
+            raise ValueError("expected two same-spin loops, found %d" % len(loops))
+        specs = []
+        for lp in loops:
+            aug = [b for b in lp.body if isinstance(b, ast.AugAssign) and isinstance(b.target, ast.Name)][0]
+            tname = aug.target.id
+            subs = [n for b in lp.body for n in ast.walk(b) if isinstance(n, ast.Subscript) and isinstance(n.value, ast.Name)]
+            # slices whose bounds mention the running offset: the pair-value slice; the other sliced name is `a`
+            tsl, asl, aidx = [], [], []
+            for n in subs:
+                parts = n.slice.elts if isinstance(n.slice, ast.Tuple) else [n.slice]
+                for q in parts:
+                    if isinstance(q, ast.Slice) and q.lower is not None and q.upper is not None:
+                        names = {m.id for m in ast.walk(q) if isinstance(m, ast.Name)}
+                        (tsl if tname in names else asl).append((n.value.id, q))
+                if not isinstance(n.slice, (ast.Tuple, ast.Slice)) and not (isinstance(n.slice, ast.Constant) and n.slice.value is Ellipsis):
+                    aidx.append((n.value.id, n.slice))
+            if len(tsl) != 1 or len(asl) != 1:
+                raise ValueError("loop shape not recognised")
+            aname = asl[0][0]
+            aidx = [q for (nm, q) in aidx if nm == aname]
+            if len(aidx) != 1:
+                raise ValueError("electron index on %s not recognised" % aname)
+            specs.append((lp, aug, tname, tsl[0][1], asl[0][1], aidx[0]))
+    except Exception as e:  # noqa
+        ck.stats["pair_packing_tie"] = "unavailable: %r" % (e,)
+        return
+    ev = lambda node, env: eval(compile(ast.Expression(node), "<pgradient>", "eval"), {"range": range, "len": len}, env)
+    exprs, inputs = [], []
+    try:
+        for nup in range(6):
+            for ndown in range(6):
+                for (lp, aug, tname, tq, aq, ai) in specs:
+                    env = {"nup": nup, "ndown": ndown, "nelec": nup + ndown, tname: 0}
+                    rows = []
+                    for i in ev(lp.iter, env):
+                        env[lp.target.id] = i
+                        g = ev(ai, env)
+                        t0, t1, j0, j1 = ev(tq.lower, env), ev(tq.upper, env), ev(aq.lower, env), ev(aq.upper, env)
+                        rows.append((g, t0, max(0, t1 - t0), j0, j1))
+                        env[tname] = env[tname] + ev(aug.value, env) if isinstance(aug.op, ast.Add) else None
+                    if not rows:
+                        continue
+                    up = all(r[0] < nup for r in rows)
+                    base, n = (0, nup) if up else (nup, ndown)
+                    enc = lambda x: x if 0 <= x < 4000 else 4000  # a negative (or absurd) slice bound can never match the model: encoded as a value no offset reaches
+                    ent = "; ".join("(%d, (%d, %d), (%d, %d))" % (enc(g - base), enc(t0), enc(ln), enc(j0 - base), enc(j1 - base)) for (g, t0, ln, j0, j1) in rows)
+                    exprs.append("packing_ok %d [%s]" % (n, ent))
+                    inputs.append({"nup": nup, "ndown": ndown, "channel": "up-up" if up else "down-down", "iterations (electron, slice start, slice length, j start, j stop)": rows})
+    except Exception as e:  # noqa
+        ck.stats["pair_packing_tie"] = "unavailable: %r" % (e,)
+        return
+    # the order of the packed pairs is that of dist_matrix
+    from pyqmc.configurations.distance import RawDistance
+    for n in range(2, 7):
+        _, ij = RawDistance().dist_matrix(np.zeros((1, n, 3)))
+        exprs.append("same_pairs %d [%s]" % (n, "; ".join("(%d, %d)" % (int(a), int(b)) for a, b in ij)))
+        inputs.append({"dist_matrix_pair_order_for_n": n, "ij": [[int(a), int(b)] for a, b in ij]})
+    vals = ck.coq_eval("pairs", ["C16.Pairs"], exprs, scope="nat_scope")
+    bad = [inp for inp, v in zip(inputs, vals) if v is None or str(v).strip().lower() != "true"]
+    for inp in bad[:2]:
+        ck.correspondence_broken("C16 packed same-spin pair slices of ThreeBodyJastrow.pgradient vs C16/Pairs.v (offset n i, n-i-1)", str(inp))
+    ck.stats["pair_packing_tie"] = "%d channel/size cases and %d pair orders agree with the model" % (len(exprs) - 5 - len([b for b in bad if "nup" in b]), 5 - len([b for b in bad if "nup" not in b]))
+    for k in range(len(exprs)):
+        ck.case(("pairs", k), nontrivial=True)
+
+
 def main(argv):
     ck = Check("C16", argv)
     ck.rule = ("LinearTransform driven on random parameter dictionaries (1-4 keys, shapes up to 3x3x3, real and complex dtypes, masks of density 0/0.3/0.7/1, keys missing from to_opt, "
@@ -327,8 +409,9 @@ def main(argv):
                "Non-trivial: at least one selected entry / a derivative that is not identically zero.")
     ck.trusted = ["Coq 8.16.1 kernel + vm_compute", "harness/c16.py, harness/wfzoo.py (PySCF fixtures)", "finite differences (tolerance 2e-5 relative after Richardson extrapolation)"]
     ck.assumptions = ["parameter values are copied, never computed with, by the transform: integers stand for doubles in the model", "the multi-key concatenation order of serialize_gradients is covered by the exact correspondence (theorem proved for one key)"]
-    ck.coq_build("C16", THEOREMS)
+    ck.coq_build("C16", THEOREMS, props_files=["C16/Props.v", "C16/PropsPairs.v"], extra_targets=["C16/Pairs.vo"])
     check_transform(ck)
     if not ck.replay:
+        check_pair_packing(ck)
         check_real_wfs(ck)
     return ck.finish()
